@@ -81,3 +81,31 @@ Proof.
   eapply end_block_set_spec; [apply (di_rank _ D)|exact A|exact E].
 Qed.
 Print Assumptions C13_reachable_refines.
+
+(* ---- block-structured histories: no hypothesis left ---- *)
+From Goat Require Import Proofs.LockingPending.
+
+(* A history is a sequence of blocks: BeginBlocker at the block time, request lists carrying that same
+   time, EndBlocker; hand-over and account creation anywhere (wf_hist).  Slash fractions in [0,1], jail
+   duration non-negative (Params.Validate).  Then in EVERY state such a history reaches EndBlocker
+   succeeds, the updates it reports are exactly the changes CometBFT accepts, and the new recorded set is
+   exactly the Active validators with their power. *)
+Theorem C13_complete p rem goat gas acc ops :
+  0 <= lp_slash_down p <= one18 -> 0 <= lp_slash_double p <= one18 -> 0 <= lp_jail_dur p ->
+  wf_hist None ops ->
+  let s := lk_run (empty_lstate p rem goat gas acc) ops in
+  exists s' ups, end_block s = Ok (s', ups) /\
+    l_set s' = apply_ups (l_set s) ups /\
+    NoDup (map fst ups) /\
+    (forall a q, In (a, q) ups -> (q = 0%N -> is_Some (l_set s !! a)) /\ (q <> 0%N -> In a (map snd (rank_desc s)))) /\
+    (forall a q, l_set s' !! a = Some q -> (0 < q)%N \/ l_set s !! a = Some q) /\
+    (forall a, l_set s' !! a = (l_val s' !! a) ≫= (fun v => match v_status v with Active => Some (v_power v) | _ => None end)).
+Proof.
+  intros H1 H2 H3 W s. destruct (reachable_binv p rem goat gas acc ops H1 H2 H3 W) as (ph & D & S & J & A & I). fold s in D, S, J, A, I.
+  assert (Hwf : set_wf s) by (split; [apply A|apply I]).
+  destruct (end_block_refines s (rank_spec_rank_wf s (di_rank _ D)) Hwf) as (s' & ups & E & R).
+  exists s', ups. split; [exact E|]. destruct R as (R1 & R2 & R3 & R4).
+  split; [exact R1|]. split; [exact R2|]. split; [exact R3|]. split; [exact R4|].
+  eapply end_block_set_spec; [apply (di_rank _ D)|apply A|exact E].
+Qed.
+Print Assumptions C13_complete.
